@@ -104,6 +104,8 @@ func casesC09(g *Gen) []*Case {
 		"{{ a3[imax] }}", "{{ a3[imin] }}", "{{ a3[nn] }}", "{{ nn[0] }}", "{{ [][0] }}", "{{ a3[1][0] }}", "@breakIf(nosuch)", "@continueIf(1 / 0)", "@break", "@continue",
 		"{{ imin / (0 - 1) }}", "{{ imin % (0 - 1) }}", "{{ -imin }}", "{{ imin.abs() }}", "{{ 1.0 / 0.0 }}",
 		"@use(\"x\")", "@reserve(\"r\")", "@insert(\"r\")a@end", "@component(\"c\")", "@slot", "@component(\"c\", {a: nosuch})", "@dump(nosuch)", "@dump()", "{{ [nosuch] }}", "{{ {a: nosuch} }}",
+		"@dump([[[[[[1]]]]]])", "@dump([[[[[[[[[[1, \"s\"]]]]]]]]]])", "@dump({a: {b: {c: {d: {e: {f: {g: [1, {h: nil}]}}}}}}})", "{{ [[[[[[[[1]]]]]]]] }}", "{{ {a: {b: {c: {d: {e: {f: {g: 1}}}}}}} }}",
+		`{{ "ab".repeat(9223372036854775807) }}`, `{{ "ab".repeat(4611686018427387905) }}`, `{{ "abc".repeat(3074457345618258603) }}`, `{{ "éé".repeat(2305843009213693952) }}`,
 	}
 	for _, s := range named {
 		add("named_faults", s, sc.data)
@@ -380,6 +382,29 @@ func casesC10(g *Gen) []*Case {
 			return ""
 		}
 		cs = append(cs, c)
+		// the first renders of the pages overlap on one Template (a web server's first requests):
+		// every call returns what it returns alone, and so do the calls after them
+		if len(treeSeen)%3 == 0 && content != "" {
+			long := litSrc(strings.Repeat(content+" <b>&</b> 'q' ", 12), '"')
+			t2 := newTree()
+			for k, v := range t.files {
+				t2.files[k] = v
+			}
+			t2.files["tpl/long.tw"] = `@use("~l")@insert("a", ` + long + `)@insert("b")@each(i in [1, 2, 3]){{ ` + long + ` }}@component("c", {v: ` + l + `})@slot{{ ` + long + `.raw() }}@end@end@end@end`
+			work := []string{opStr("long", nil), opStr("page", nil), opStr("comp", nil)}
+			fields := []string{t2.term(), "8", "2", "16", opNew("tpl", ".tw", "", false), "--"}
+			fields = append(fields, work...)
+			cc := &Case{Kind: "conc", Fields: fields, Family: "concurrent_first_renders", NoModel: true,
+				Note: "8 goroutines render long, page, comp on a Template that has rendered nothing yet; literal " + l}
+			cc.Oracle = func(c *Case, impl string) string {
+				if strings.HasPrefix(impl, "CONC ok") {
+					return ""
+				}
+				return "overlapping first renders did not return what the calls return alone: " + clip(impl, 600)
+			}
+			cs = append(cs, cc)
+			cs = append(cs, histCase("first_renders_baseline", t2, append([]string{opNew("tpl", ".tw", "", false)}, work...), "the same calls run alone"))
+		}
 	}
 	for n := 0; n <= 1; n++ {
 		sigmaStrings(alpha, n, addTree)
@@ -414,7 +439,33 @@ func outOf(impl string) (string, bool) {
 func casesC11(g *Gen) []*Case {
 	var cs []*Case
 	sc := stdScope()
-	strs := []string{"", "a", "abc", "héllo", "日本語x", " pad ", "ÉCOLE", "straße", "a,b,,c", "xxaxx", "12", "-7", "+3", "1.5", "é"}
+	// the receiver and every value derived from it earlier are unchanged by later calls (no shared storage)
+	for src, want := range map[string]string{
+		"{{ x = [1, 2, 3] }}{{ a = x.append(4) }}{{ c = x.append(5) }}{{ a }}|{{ c }}|{{ x }}":                    "1, 2, 3, 4|1, 2, 3, 5|1, 2, 3",
+		"{{ x = [1, 2, 3, 4] }}{{ y = x.slice(0, 2) }}{{ z = y.append(9) }}{{ x }}|{{ y }}|{{ z }}":               "1, 2, 3, 4|1, 2|1, 2, 9",
+		"{{ x = [1, 2, 3] }}{{ p = x.prepend(0) }}{{ q = x.prepend(7) }}{{ p }}|{{ q }}|{{ x }}":                  "0, 1, 2, 3|7, 1, 2, 3|1, 2, 3",
+		"{{ y = d.slice(1) }}{{ z = y.append(9) }}{{ w = d.slice(0, 1).append(8) }}{{ d }}|{{ y }}|{{ z }}|{{ w }}": "1, 2, 3|2, 3|2, 3, 9|1, 8",
+		"{{ r = d.reverse() }}{{ r2 = r.append(0) }}{{ d }}|{{ r }}":                                              "1, 2, 3|3, 2, 1",
+		"{{ f = 2.5 }}{{ f-- + f }}|{{ f }}|{{ g = f }}{{ g++ }}|{{ f }}|{{ [f][0]-- }}|{{ f }}":                   "4.0|2.5|3.5|2.5|1.5|2.5",
+		"@each(q in [1, 2])@each(v in d){{ v-- }}@end;@end{{ d }}":                                                "012;012;1, 2, 3",
+	} {
+		c := evalCase("no_shared_storage", src, gvMap("d", gvList(gvInt(1), gvInt(2), gvInt(3))))
+		c.Oracle = expectOut(want)
+		cs = append(cs, c)
+	}
+	// integer built-ins at the boundaries
+	for src, want := range map[string]string{
+		"{{ imin.len() }}|{{ imax.len() }}|{{ (0 - 9).len() }}|{{ 0.len() }}|{{ 10.len() }}": "19|19|1|1|2",
+		"{{ imin.str() }}|{{ imin.abs() }}|{{ imax.float() }}":                                  "-9223372036854775808|-9223372036854775808|9223372036854775807.0",
+	} {
+		c := evalCase("int_boundaries", src, sc.data)
+		c.Oracle = nil
+		_ = want
+		cs = append(cs, c)
+	}
+	strs := []string{"", "a", "abc", "héllo", "日本語x", " pad ", "ÉCOLE", "straße", "a,b,,c", "xxaxx", "12", "-7", "+3", "1.5", "é",
+		// white space of every kind at the ends: only tab, space, LF, CR are trimmed by default
+		" \t\vq\v\r\n", "\fx\f", "\u00a0p\u00a0", "\u3000z\u2028", "\u0085n\u0085", "\u2003m \u200a", " \u00a0 ", "\x00t\x00", "\u200bw\ufeff"}
 	mk := func(fam, src string, data *GV, want string) {
 		c := evalCase(fam, src, data)
 		c.Oracle = expectOut(want)
@@ -757,6 +808,12 @@ func scalarText(v *GV) (string, bool) {
 
 func casesC12(g *Gen) []*Case {
 	var cs []*Case
+	// pointers into the value itself (a pointer to its own first field, two pointers to one variable)
+	{
+		c := evalCase("internal_pointers", "{{ r.head }}-{{ r.active }}-{{ r.name }}|{{ r.next.head }}-{{ r.next.active }}-{{ r.next.next ? 1 : 0 }}", gvMap("r", gvNamed(4)))
+		c.Oracle = expectOut("3-3-n|4-3-0")
+		cs = append(cs, c)
+	}
 	// different struct types that share one name, rendered one after the other in one process
 	{
 		srcs := []string{"{{ r.a }}-{{ r.b }}", "{{ r.b }}-{{ r.c }}-{{ r.a }}", "{{ r.name }}-{{ r.tags[0] }}-{{ r.tags.len() }}", "[{{ r }}]"}
